@@ -155,6 +155,48 @@ func judgePoint(p *object.Point, h, v int64, got string) (class, msg string, ban
 	return "", "", band
 }
 
+// c01TileRun: a run of 30..90 points inside one horizontal tile (what a "same tile as the previous point" shortcut
+// learns from), then points on that tile's own edges - the edge longitudes exactly, the edge latitudes as the real
+// values, as stored on the 1e-10 degree lattice, and one ulp either side - mixed with more interior points. Every
+// element is judged on its own: the ID of a point does not depend on the points listed before it.
+func c01TileRun(r *core.Rng, h, v int64) []pt {
+	n := pow2(h)
+	x, y := edgeIndex(r, n), edgeIndex(r, n)
+	if r.P(0.3) && h >= 1 { // the rows next to the equator
+		y = n/2 - int64(r.Intn(2))
+	}
+	west, east := ref.LonOfColExact(x, h), ref.LonOfColExact(x+1, h)
+	north, south := ref.LatOfRow(float64(y), h), ref.LatOfRow(float64(y+1), h)
+	clampLat := func(l float64) float64 { return math.Max(-ref.MaxLat, math.Min(ref.MaxLat, l)) }
+	inside := func() pt {
+		return pt{west + (east-west)*r.Uniform(0.05, 0.95), clampLat(south + (north-south)*r.Uniform(0.05, 0.95)), genAlt(r, v)}
+	}
+	var pts []pt
+	for k := 30 + r.Intn(61); k > 0; k-- {
+		pts = append(pts, inside())
+	}
+	lat10 := func(l float64) float64 { return math.Trunc(l*1e10) / 1e10 }
+	edgeLats := []float64{north, south, lat10(north), lat10(south), up(lat10(south)), down(lat10(south)), up(lat10(north)), down(lat10(north)), lat10(south) + 1e-10, lat10(south) - 1e-10}
+	edgeLons := []float64{west, east, up(west), down(east), down(west), up(east)}
+	for k := 4 + r.Intn(12); k > 0; k-- {
+		p := inside()
+		switch r.Intn(4) {
+		case 0:
+			p.lat = clampLat(edgeLats[r.Intn(len(edgeLats))])
+		case 1:
+			p.lon = math.Max(-180, math.Min(180, edgeLons[r.Intn(len(edgeLons))]))
+		case 2:
+			p.lat = clampLat(edgeLats[r.Intn(len(edgeLats))])
+			p.lon = math.Max(-180, math.Min(180, edgeLons[r.Intn(len(edgeLons))]))
+		}
+		pts = append(pts, p)
+		if r.P(0.3) {
+			pts = append(pts, inside())
+		}
+	}
+	return pts
+}
+
 func runC01(c *core.Case) {
 	r := c.R
 	var h, v int64
@@ -225,6 +267,10 @@ func runC01(c *core.Case) {
 			}
 			pts = append(pts, p)
 		}
+	}
+	if c.I >= c01Directed && r.P(0.03) {
+		pts = c01TileRun(r, h, v)
+		c.Tag("run-in-one-tile-then-its-edges")
 	}
 	var objs []*object.Point
 	for _, p := range pts {
